@@ -21,6 +21,7 @@ pub fn run(ctx: &Ctx) -> (Report, Meta) {
     .floor("hard_runs_checked", 200);
     let g = GenOpts {
         stiff_for_implicit: true,
+        allow_min_step: true,
         allow_t_eval: true,
         allow_events: true,
         allow_terminal: true,
